@@ -156,6 +156,8 @@ class _SymExec:
                 raise AnalysisError("internal: func call must be pre-registered")
             if call_name(e) in ("int", "float", "asarray", "array") and e.args:
                 return self.expr(e.args[0], naive)
+            if isinstance(e.func, ast.Attribute) and e.func.attr in ("clone", "copy") and not e.args and not e.keywords:
+                return self.expr(e.func.value, naive)       # x.clone() / x.copy(): same value (a private copy)
         raise AnalysisError(f"solver step: unrecognised expression form {ast.unparse(e)}")
 
     def _func_calls(self, node: ast.AST) -> List[ast.Call]:
@@ -193,6 +195,20 @@ class _SymExec:
         def conv(e, naive):
             if isinstance(e, ast.Call) and id(e) in sub:
                 return sub[id(e)]
+            if isinstance(e, ast.Call) and ((isinstance(e.func, ast.Attribute) and e.func.attr in ("clone", "copy") and not e.args
+                                             and isinstance(e.func.value, ast.Call) and id(e.func.value) in sub)
+                                            or (call_name(e) in ("copy", "array", "clone") and len(e.args) == 1 and isinstance(e.args[0], ast.Call)
+                                                and id(e.args[0]) in sub and not isinstance(e.func, ast.Attribute) or
+                                                (call_name(e) in ("copy", "array") and len(e.args) == 1 and isinstance(e.args[0], ast.Call)
+                                                 and id(e.args[0]) in sub))):
+                # func(...).clone() / .copy() / np.copy(func(...)) / np.array(func(...)): a private copy of the result - a later
+                # call that reuses the borrowed buffer cannot change it.  Its own symbol (never equal to a K symbol) keeps it apart.
+                inner = e.func.value if (isinstance(e.func, ast.Attribute) and e.func.attr in ("clone", "copy") and not e.args) else e.args[0]
+                k = sub[id(inner)]
+                kc = sp.Symbol(str(k) + "copy")
+                self._kdefs[kc] = self._kdefs[k]
+                self._kdefs_naive[kc] = self._kdefs_naive[k]
+                return kc
             if isinstance(e, ast.BinOp):
                 a, b = conv(e.left, naive), conv(e.right, naive)
                 return {ast.Add: a + b, ast.Sub: a - b, ast.Mult: a * b, ast.Div: a / b}.get(type(e.op)) \
